@@ -495,7 +495,21 @@ Definition mon_C06 : monitor := fun L s st s' =>
    deposits the message declared and the reserves the pair held just before (net of the caller's own native deposit,
    which the snapshot before the transaction does not contain anyway); a tolerance above 100% never succeeds *)
 Definition mon_C15 : monitor := fun L s st s' =>
-  if negb (hs_ok st) then (fail_unchanged st, false) else
+  if negb (hs_ok st) then
+    (* a provision refused WITH THE MAX-SLIPPAGE ERROR is unjustified when both left sides are at most the reserve ratio
+       minus 10^-18 *)
+    (fail_unchanged st &&
+     match hs_op st, hs_extras st with
+     | OProvide p c funds l0 n0 l1 n1 (Some t) _, [2] =>
+         if mem_addr p (existing_pairs L s) && (t <=? D) then
+           let a0 := s_pair_asset L s p 0 in
+           let d0 := if asset_eqb l0 a0 then n0 else n1 in
+           let d1 := if asset_eqb l0 a0 then n1 else n0 in
+           let '(r0, r1) := pair_reserves L s p in
+           negb ((d0 * (D - t) * r1 + r1 * d1 <=? r0 * D * d1) && (d1 * (D - t) * r0 + r0 * d0 <=? r1 * D * d0))
+         else true
+     | _, _ => true
+     end, false) else
   (match hs_op st with
    | OProvide p c funds l0 n0 l1 n1 (Some t) _ =>
        let a0 := s_pair_asset L s p 0 in
@@ -539,10 +553,32 @@ Definition spread_reject_justified L s (p : addr) (offer : asset) (amount ms : N
   | Ok (n, sp, _) => ms * (n + sp) <? sp * D
   | Err _ => true
   end.
+(* the same for the belief-price mode: a max-spread refusal is unjustified when the decimals-normalised return is at least
+   (offer/p)*(1-s) *)
+Definition belief_reject_justified L s (p : addr) (offer : asset) (amount bp ms : N) : bool :=
+  let a0 := s_pair_asset L s p 0 in let a1 := s_pair_asset L s p 1 in
+  let first := asset_eqb offer a0 in
+  let ask := if first then a1 else a0 in
+  let od := if first then s_pair L s p 5 else s_pair L s p 6 in
+  let rd := if first then s_pair L s p 6 else s_pair L s p 5 in
+  match compute_swap (s_asset_bal L s offer p) (s_asset_bal L s ask p) amount (s_pair L s p 10) with
+  | Ok (n, sp, _) =>
+      match normalise_decimals amount n sp od rd with
+      | Ok (o', r', _) => if ms <=? D then negb (o' * (D - ms) <=? r' * bp) else true
+      | Err _ => true
+      end
+  | Err _ => true
+  end.
 Definition mon_C10 : monitor := fun L s st s' =>
   if negb (hs_ok st) then
     (fail_unchanged st &&
      match hs_op st, hs_extras st with
+     | OSwap p _ [(d, k)] (ANative d') amount (Some bp) (Some ms) _, [1] =>
+         if (d =? d') && (k =? amount) && mem_addr p (existing_pairs L s)
+         then belief_reject_justified L s p (ANative d') amount bp ms else true
+     | OSend ta _ p k (HSwap (AToken tb) amount (Some bp) (Some ms) _), [1] =>
+         if (ta =? tb) && (k =? amount) && mem_addr p (existing_pairs L s)
+         then belief_reject_justified L s p (AToken ta) amount bp ms else true
      | OSwap p _ [(d, k)] (ANative d') amount None (Some ms) _, [1] =>
          if (d =? d') && (k =? amount) && mem_addr p (existing_pairs L s)
          then spread_reject_justified L s p (ANative d') amount ms else true
